@@ -7,7 +7,7 @@ CONSTANTS
   Degs <- DegsQ
   MaxNpts = 4
   Acts = {"CvDegreeIncrease", "CvDegreeDecrease"}
-  PtKinds = {"gen"}
+  PtKinds = {"gen", "homlin"}
   WtKinds = {"none", "gen", "const"}
   ExtraNodes <- Extra0
   NodeSize = 2
